@@ -356,6 +356,10 @@ def ctor_typestate_rule(run):
                 val = bool(dflt)
         if val is None and dflt is not None and not any(it.get('field') == 'm_expired' and it.get('written') and is_node(it.get('e')) and q.strip_casts(it['e']).get('k') not in ('defaultinit', None) for it in fn.inits):
             val = bool(dflt)
+        if val is None and any(it.get('delegating') for it in fn.inits):
+            n += 1      # a delegating constructor starts from the state its target establishes
+            run.ok('R4', 'ctor-unexpired-implies-queued', fn.norm + fn.sig, fn.loc(), 'delegates to another constructor of the timer', nontrivial=False)
+            continue
         if val is None:
             continue
         n += 1
@@ -367,6 +371,19 @@ def ctor_typestate_rule(run):
                   'constructed expired (not queued)' if val else 'constructed pending and queued on every path')
     if n < 3:
         run.broke('only %d constructors of high_resolution_timer initialise m_expired with a literal (3 confirmed by hand)' % n)
+    # a constructor given an expiry arms the timer the way the member of the same meaning does: a duration is relative to
+    # NOW (expires_after), a time point is absolute (expires_at)
+    for fn in fx.fn(T + '::high_resolution_timer'):
+        if len(fn.params) != 2 or '&&' in fn.sig:
+            continue
+        pty = fn.sig
+        want = 'expires_after' if 'duration' in pty else 'expires_at'
+        pname = fn.params[1].get('name')
+        cs = [c for c in _calls(fn, 'high_resolution_timer::' + want) if c.get('args') and q.render(fn, q.strip_casts(c['args'][0])) == pname]
+        run.touch(fn)
+        run.check(bool(cs) and q.on_all_paths(fn, cs), 'R4', 'ctor-arms-like-member', fn.norm + fn.sig, fn.loc(),
+                  'the constructor taking %s does not arm the timer with %s(%s): a duration handed to the absolute-time path is counted from the epoch instead of from now, so a timer constructed after virtual time has advanced is armed too early (it completes before max(expiry, time the wait was started))' % ('a duration' if want == 'expires_after' else 'a time point', want, pname),
+                  'arms with %s(%s)' % (want, pname))
 
 
 def fire_only_dequeued_rule(run):
